@@ -96,7 +96,11 @@ class Explorer:
         w.ledger = []
         wf = self.wl.build(w)
         w.incarnate(trust_negative=self.trust_negative)
-        w.orchestrator.start(wf)
+        w._engine_active = bool(getattr(self, "record_start", False))  # E2: commits of Orchestrator.start are crash points too
+        try:
+            w.orchestrator.start(wf)
+        finally:
+            w._engine_active = False
         if self.setup:
             self.setup(self, wf)
         w.drain_audit()
